@@ -30,6 +30,7 @@ __all__ = [
     "RE_TO_SBML",
     "SBML_DOT",
     "UNARY",
+    "UNARY_QUALIFIER",
     "write",
 ]
 
@@ -69,6 +70,12 @@ BINARY = {
 NARY = {
     "max": libsbml.AST_FUNCTION_MAX,
     "min": libsbml.AST_FUNCTION_MIN,
+}
+
+# MathML operators whose first child is a qualifier: log10(x) is <log/> with <logbase> 10.
+# libSBML rejects a <log/> node with a single child (the argument is not written at all)
+UNARY_QUALIFIER = {
+    libsbml.AST_FUNCTION_LOG: 10,
 }
 
 
@@ -181,13 +188,21 @@ def _convert_ifexp(node: ast.IfExp) -> libsbml.ASTNode:
     return sbml_node
 
 
+def _unary_call(typ: int, arg: ast.expr) -> libsbml.ASTNode:
+    sbml_node = libsbml.ASTNode(typ)
+    if (qualifier := UNARY_QUALIFIER.get(typ)) is not None:
+        qualifier_node = libsbml.ASTNode(libsbml.AST_INTEGER)
+        qualifier_node.setValue(qualifier)
+        sbml_node.addChild(qualifier_node)
+    sbml_node.addChild(_convert_node(arg))
+    return sbml_node
+
+
 def _convert_direct_call(node: ast.Call) -> libsbml.ASTNode:
     func = cast(ast.Name, node.func).id
 
     if (typ := UNARY.get(func)) is not None and len(node.args) == 1:
-        sbml_node = libsbml.ASTNode(typ)
-        sbml_node.addChild(_convert_node(node.args[0]))
-        return sbml_node
+        return _unary_call(typ, node.args[0])
     if (typ := BINARY.get(func)) is not None and len(node.args) == 2:
         sbml_node = libsbml.ASTNode(typ)
         sbml_node.addChild(_convert_node(node.args[0]))
@@ -211,9 +226,7 @@ def _convert_library_call(node: ast.Call) -> libsbml.ASTNode:
 
     if parent in ("math", "np", "numpy"):
         if (typ := UNARY.get(attr)) is not None and len(node.args) == 1:
-            sbml_node = libsbml.ASTNode(typ)
-            sbml_node.addChild(_convert_node(node.args[0]))
-            return sbml_node
+            return _unary_call(typ, node.args[0])
         if (typ := BINARY.get(attr)) is not None and len(node.args) == 2:
             sbml_node = libsbml.ASTNode(typ)
             sbml_node.addChild(_convert_node(node.args[0]))
